@@ -32,9 +32,14 @@ def model_vs_impl(tag, cases, check_fn="check_validate", shard=120):
             raw.append(i)
             continue
         sgx = ShapesGraph(c["sg"]).graph  # adds the system triples exactly as the validator does
+        fn = check_fn
+        if check_fn == "SEL":
+            fn = "check_validate_sel %s" % I.terms(c["sel"]["U"])
+        mopts = dict(c["opts"])
+        mopts.update(c.get("model_opts", {}))
         body = "%s (%s) (%s) (%s) (%s) (%s)" % (
-            check_fn,
-            S.opts_to_coq(I, c["opts"]),
+            fn,
+            S.opts_to_coq(I, mopts),
             I.graph(S.class_triples(sgx)),
             I.graph(c["data"]),
             S.env_to_coq(I, c["shapes"]),
@@ -49,3 +54,80 @@ def model_vs_impl(tag, cases, check_fn="check_validate", shard=120):
 def show_model(tag, body, check_fn="check_validate"):
     expr = body.replace(check_fn, "(fun o sg g E _ => validate o sg g E)", 1)
     return F.coq_show(tag, PREAMBLE, expr)
+
+
+def standard_main(prop, prop_files, tier, seed, cases, rule, what, metamorphic=None, check_fn="check_validate",
+                  extra_assumptions=(), known=None, extra_vo=()):
+    """Shared driver: proof gates, model-vs-implementation correspondence on `cases`, optional metamorphic
+    relation on the real code alone (`metamorphic(cases, observations)` -> list of (case index, description))."""
+    rep = F.Report(prop, tier, seed)
+    ob = F.coq_build(prop_files, extra=list(EXTRA_VO) + list(extra_vo))
+    if not vocab_fresh():
+        ob.broken.append("gate: coq/Base/Vocab.v is stale w.r.t. harness/enc.py")
+    tag = prop.lower()
+    if ob.ok:
+        obs, failed, raw, errors, bodies = model_vs_impl(tag, cases, check_fn=check_fn)
+    else:
+        obs = [S.run_validate(c["data"], c["sg"], **c["opts"]) for c in cases]
+        failed, raw, errors, bodies = [], [i for i, o in enumerate(obs) if o[0] == "err" and o[1].startswith("RAW:")], ["coq build broken"], {}
+    meta_viol = metamorphic(cases, obs) if metamorphic else []
+    seen = set()
+    for i, desc in meta_viol[:10]:
+        d = S.describe_case(cases[i]["sg"], cases[i]["data"], cases[i]["opts"], obs[i])
+        d["what"] = desc
+        d["group"] = cases[i].get("group")
+        rep.violation(d)
+        seen.add(i)
+    for i in raw[:10]:
+        if i in seen:
+            continue
+        d = S.describe_case(cases[i]["sg"], cases[i]["data"], cases[i]["opts"], obs[i])
+        d["what"] = "undocumented exception escaped validate()"
+        rep.violation(d)
+    for i in failed[:10]:
+        if i in seen:
+            continue
+        d = S.describe_case(cases[i]["sg"], cases[i]["data"], cases[i]["opts"], obs[i])
+        d["model"] = show_model(tag, bodies[i], check_fn) if check_fn == "check_validate" else "see check function " + check_fn
+        d["what"] = what
+        rep.violation(d)
+    if (not ob.ok or errors) and not rep.violations:
+        rep.violation({"obligation": ob.broken or errors, "detail": ob.log[-1500:]}, no_input=True)
+    kinds, optk = {}, {}
+    for c in cases:
+        for s in c["shapes"]:
+            for comp in s["comps"]:
+                kinds[comp[0]] = kinds.get(comp[0], 0) + 1
+        k = ",".join("%s=%s" % kv for kv in sorted(c["opts"].items()) if kv[0] != "focus_nodes") or "default"
+        optk[k] = optk.get(k, 0) + 1
+    nontrivial = set()
+    for i, o in enumerate(obs):
+        if (o[0] == "ok" and o[2]) or o[0] == "err":
+            nontrivial.add(repr(S.describe_case(cases[i]["sg"], cases[i]["data"], cases[i]["opts"], o)["observed"]) + repr(sorted(cases[i]["opts"].items())) + cases[i]["sg"].serialize(format="nt"))
+    cov = F.proof_coverage(ob)
+    cov.update({
+        "evaluations": len(cases),
+        "distinct_nontrivial": len(nontrivial),
+        "rule": rule,
+        "distribution": {
+            "components": kinds, "options": optk,
+            "nonconforming": sum(1 for o in obs if o[0] == "ok" and not o[1]),
+            "errors": {e: sum(1 for o in obs if o[0] == "err" and o[1] == e) for e in sorted({o[1] for o in obs if o[0] == "err"})},
+            "with_details": sum(1 for o in obs if o[0] == "ok" and any(r[5] for r in o[2])),
+            "model_disagreements": len(failed), "metamorphic_violations": len(meta_viol),
+        },
+        "samples": [S.describe_case(cases[i]["sg"], cases[i]["data"], cases[i]["opts"], obs[i]) for i in range(min(2, len(obs)))],
+    })
+    rep.coverage = cov
+    rep.assumptions = ["leaf components outside the modelled kinds are exercised by C01"] + list(extra_assumptions)
+    return rep.finish()
+
+
+def base_case(rng, **kw):
+    data, nodes, lits = S.gen_typed_data(rng, n_iri=rng.randint(2, 5), n_bn=rng.randint(0, 1), n_lit=rng.randint(0, 2), n_triples=rng.randint(2, 12))
+    shapes = S.gen_shapes(rng, nodes, lits, n_shapes=rng.randint(2, 7), **kw)
+    return {"shapes": shapes, "sg": S.shapes_to_rdf(shapes), "data": data, "nodes": nodes, "lits": lits}
+
+
+def keys(obs):
+    return sorted((S.result_key(r) for r in obs[2]), key=repr)
